@@ -357,6 +357,9 @@ pub struct FaultSpec {
     /// the n-th call (0-based) of that stage made after the channel is connected
     pub nth: u16,
     pub errno: i32,
+    /// also fail the following `repeat` calls of that stage
+    #[serde(default)]
+    pub repeat: u16,
 }
 
 #[derive(Clone, Debug, PartialEq, Eq, Serialize, Deserialize)]
